@@ -313,18 +313,18 @@ theorem errors (i : Input)
   · simp [h, specFind]
 
 /-- non-vacuity: a concrete run that succeeds on the second page within the limit -/
-example : run { max := 3, pages := [[.bad], [.good, .bad]], ref := .tag, skip := false, refVariant := "", flavors := [] } =
+example : run { max := 3, pages := [[.bad], [.good, .bad]], ref := .tag, skip := false, refVariant := "", flavors := [], sameAs := [] } =
     { success := some 1, skipped := false, resolved := true, listed := true,
       fetched := [0, 1], verified := [0, 1], descOk := true } := by decide
 
-example : Holds { max := 3, pages := [[.bad], [.good, .bad]], ref := .tag, skip := false, refVariant := "", flavors := [] }
+example : Holds { max := 3, pages := [[.bad], [.good, .bad]], ref := .tag, skip := false, refVariant := "", flavors := [], sameAs := [] }
     { success := some 0, skipped := false, resolved := true, listed := true,
       fetched := [0], verified := [0], descOk := true } = false := by decide
 
 /-- how the reference is spelled and which error values failing attempts return are not inputs of
 the decision: two inputs that differ only there are observed identically -/
-theorem concretisation_irrelevant (i : Input) (v : String) (f : List Nat) :
-    run { i with refVariant := v, flavors := f } = run i := by
+theorem concretisation_irrelevant (i : Input) (v : String) (f : List Nat) (sa : List Int) :
+    run { i with refVariant := v, flavors := f, sameAs := sa } = run i := by
   simp [run, errObs]
 
 /-! ### tie to the translated source -/
